@@ -61,6 +61,68 @@ def expectedRaw (c : Components) : Params where
   timeout := .int (match firstTmo c.opts with | some n => n | none => 10)
   ssl := c.tls
 
+/-- the parameters of a rendered URI whose scheme prefix is written as `pre`, is turned into `P` by
+    `patch_uri` and reported as `S` (the `http(s)` of the rewrite or the lower-cased `amqp(s)`) by the
+    parser: the workhorse behind `parse_encoded` and `parse_encoded_cased` -/
+theorem parse_body (v6ok : Str → Bool) (pre P S : Str) (hpatch : ∀ r, patchUri (pre ++ r) = P ++ r)
+    (hPS : PrefixOk P S) (c : Components) (hS : S = httpScheme c.tls ∨ S = amqpScheme c.tls)
+    (hw : c.WF v6ok) (he : c.EncOk) :
+    connectionParams v6ok (pre ++ renderBody c) = .ok (expectedRaw c) := by
+  unfold connectionParams
+  rw [urlparse_body v6ok pre P S hpatch hPS c hw he]
+  have hhb := optValue_query Gen.Uri.pHeartbeat rfl c.opts
+  have htm := optValue_query Gen.Uri.pTimeout rfl c.opts
+  simp only [Gen.Uri.pHeartbeat, Gen.Uri.pTimeout] at hhb htm
+  rw [firstOpt_hb] at hhb
+  rw [firstOpt_tmo] at htm
+  simp only [bind, Except.bind, pure, Except.pure, Gen.Uri.pHeartbeat, Gen.Uri.pTimeout, hhb, htm]
+  congr 1
+  -- field by field
+  have hhost : Gen.Uri.pHostname unquote S (c.host.map fun h => h.text.map Char.toLower)
+      (uiUser c.user c.pass) c.pass c.port (renderPath c.vhost) = (expectedRaw c).hostname := by
+    simp only [Gen.Uri.pHostname, expectedRaw]
+    cases hh : c.host with
+    | none => rfl
+    | some h =>
+      have hwf := hw.host h hh
+      have hne : h.text.map Char.toLower ≠ [] := by
+        cases h <;> simp only [Host.WF] at hwf <;> simp [Host.text, hwf.1]
+      simp [strOr, hne]
+  have huser : Gen.Uri.pUsername unquote S (c.host.map fun h => h.text.map Char.toLower)
+      (uiUser c.user c.pass) c.pass c.port (renderPath c.vhost) = (expectedRaw c).username := by
+    simp only [Gen.Uri.pUsername, expectedRaw]
+    cases hu : c.user <;> cases hp : c.pass
+    · exact cred_eq none
+    · exact cred_eq (some [])
+    · exact cred_eq (some _)
+    · exact cred_eq (some _)
+  have hpass : Gen.Uri.pPassword unquote S (c.host.map fun h => h.text.map Char.toLower)
+      (uiUser c.user c.pass) c.pass c.port (renderPath c.vhost) = (expectedRaw c).password := by
+    simp only [Gen.Uri.pPassword, expectedRaw]
+    exact cred_eq c.pass
+  have hport : Gen.Uri.pPort unquote S (c.host.map fun h => h.text.map Char.toLower)
+      (uiUser c.user c.pass) c.pass c.port (renderPath c.vhost) = (expectedRaw c).port := by
+    simp only [Gen.Uri.pPort, expectedRaw]
+    cases hp : c.port with
+    | none => rcases hS with rfl | rfl <;> cases c.tls <;> decide
+    | some n =>
+      have := (hw.port n hp).1
+      simp only [natOr]
+      rw [if_neg (by omega)]
+  have hvh : Gen.Uri.pVirtualHost unquote S (c.host.map fun h => h.text.map Char.toLower)
+      (uiUser c.user c.pass) c.pass c.port (renderPath c.vhost) = (expectedRaw c).virtualHost := by
+    simp only [Gen.Uri.pVirtualHost, expectedRaw]
+    cases hv : c.vhost with
+    | none => decide
+    | some v => simp only [renderPath, List.drop_succ_cons, List.drop_zero, strOrS]
+  have hssl : Gen.Uri.pSsl unquote S (c.host.map fun h => h.text.map Char.toLower)
+      (uiUser c.user c.pass) c.pass c.port (renderPath c.vhost) = (expectedRaw c).ssl := by
+    simp only [Gen.Uri.pSsl, expectedRaw]
+    rcases hS with rfl | rfl <;> cases c.tls <;> decide
+  rw [hhost, huser, hpass, hport, hvh, hssl]
+  simp only [expectedRaw]
+  cases firstHb c.opts <;> cases firstTmo c.opts <;> rfl
+
 /-- **Main theorem, any encoding.**  Take any URI `scheme://[user[:password]@][host][:port][/vhost][?options]`
     whose username, password and vhost are written in *any* form the URI grammar allows inside the
     component (unreserved characters, arbitrary `%XX` escapes in either case, raw sub-delims
@@ -73,60 +135,22 @@ def expectedRaw (c : Components) : Params where
     (On the unfixed tree — `urlparse` instead of `urlsplit` — this fails: `amqp://h/a;b` gives vhost `a`.) -/
 theorem parse_encoded (v6ok : Str → Bool) (c : Components) (hw : c.WF v6ok) (he : c.EncOk) :
     connectionParams v6ok (renderRaw c) = .ok (expectedRaw c) := by
-  unfold connectionParams
-  rw [urlparse_render v6ok c hw he]
-  have hhb := optValue_query Gen.Uri.pHeartbeat rfl c.opts
-  have htm := optValue_query Gen.Uri.pTimeout rfl c.opts
-  simp only [Gen.Uri.pHeartbeat, Gen.Uri.pTimeout] at hhb htm
-  rw [firstOpt_hb] at hhb
-  rw [firstOpt_tmo] at htm
-  simp only [bind, Except.bind, pure, Except.pure, Gen.Uri.pHeartbeat, Gen.Uri.pTimeout, hhb, htm]
-  congr 1
-  -- field by field
-  have hhost : Gen.Uri.pHostname unquote (httpScheme c.tls) (c.host.map fun h => h.text.map Char.toLower)
-      (uiUser c.user c.pass) c.pass c.port (renderPath c.vhost) = (expectedRaw c).hostname := by
-    simp only [Gen.Uri.pHostname, expectedRaw]
-    cases hh : c.host with
-    | none => rfl
-    | some h =>
-      have hwf := hw.host h hh
-      have hne : h.text.map Char.toLower ≠ [] := by
-        cases h <;> simp only [Host.WF] at hwf <;> simp [Host.text, hwf.1]
-      simp [strOr, hne]
-  have huser : Gen.Uri.pUsername unquote (httpScheme c.tls) (c.host.map fun h => h.text.map Char.toLower)
-      (uiUser c.user c.pass) c.pass c.port (renderPath c.vhost) = (expectedRaw c).username := by
-    simp only [Gen.Uri.pUsername, expectedRaw]
-    cases hu : c.user <;> cases hp : c.pass
-    · exact cred_eq none
-    · exact cred_eq (some [])
-    · exact cred_eq (some _)
-    · exact cred_eq (some _)
-  have hpass : Gen.Uri.pPassword unquote (httpScheme c.tls) (c.host.map fun h => h.text.map Char.toLower)
-      (uiUser c.user c.pass) c.pass c.port (renderPath c.vhost) = (expectedRaw c).password := by
-    simp only [Gen.Uri.pPassword, expectedRaw]
-    exact cred_eq c.pass
-  have hport : Gen.Uri.pPort unquote (httpScheme c.tls) (c.host.map fun h => h.text.map Char.toLower)
-      (uiUser c.user c.pass) c.pass c.port (renderPath c.vhost) = (expectedRaw c).port := by
-    simp only [Gen.Uri.pPort, expectedRaw]
-    cases hp : c.port with
-    | none => cases c.tls <;> decide
-    | some n =>
-      have := (hw.port n hp).1
-      simp only [natOr]
-      rw [if_neg (by omega)]
-  have hvh : Gen.Uri.pVirtualHost unquote (httpScheme c.tls) (c.host.map fun h => h.text.map Char.toLower)
-      (uiUser c.user c.pass) c.pass c.port (renderPath c.vhost) = (expectedRaw c).virtualHost := by
-    simp only [Gen.Uri.pVirtualHost, expectedRaw]
-    cases hv : c.vhost with
-    | none => decide
-    | some v => simp only [renderPath, List.drop_succ_cons, List.drop_zero, strOrS]
-  have hssl : Gen.Uri.pSsl unquote (httpScheme c.tls) (c.host.map fun h => h.text.map Char.toLower)
-      (uiUser c.user c.pass) c.pass c.port (renderPath c.vhost) = (expectedRaw c).ssl := by
-    simp only [Gen.Uri.pSsl, expectedRaw]
-    cases c.tls <;> decide
-  rw [hhost, huser, hpass, hport, hvh, hssl]
-  simp only [expectedRaw]
-  cases firstHb c.opts <;> cases firstTmo c.opts <;> rfl
+  rw [renderRaw_eq]
+  exact parse_body v6ok _ _ _ (patchUri_amqp c.tls) (httpPrefixOk c.tls) c (Or.inl rfl) hw he
+
+/-- **Any spelling of the scheme.**  URI schemes are case-insensitive: with the scheme written in any
+    mix of upper- and lower-case letters (`AMQPS://`, `Amqp://`, …) the parameters are the same as for
+    the lower-case spelling; in particular `amqps` in any case selects TLS and port 5671.  Two sites
+    cooperate here: `patch_uri` recognises only the lower-case spelling, and `UriConnection.__init__`
+    accepts both `https` and the parser's lower-cased `amqps`. -/
+theorem parse_encoded_cased (v6ok : Str → Bool) (k : Caps) (c : Components) (hw : c.WF v6ok) (he : c.EncOk) :
+    connectionParams v6ok (renderRawCased k c) = .ok (expectedRaw c) := by
+  rw [renderRawCased_eq]
+  refine parse_body v6ok _ _ _ (patchUri_cased c.tls k) (patchedPrefixOk c.tls k) c ?_ hw he
+  unfold reportedScheme
+  split
+  · exact Or.inl rfl
+  · exact Or.inr rfl
 
 /-- **Main theorem, canonical encoding.**  For every URI rendered from plain components — arbitrary
     Unicode username, password and virtual host percent-encoded with `quote(·, safe='')`, and hosts,
@@ -145,6 +169,33 @@ theorem parse_render (v6ok : Str → Bool) (c : Components) (hw : c.WF v6ok) :
   | none => rfl
   | some v =>
     simp only [Option.map_some, Amqp.Uri.unquote_quote, orDefault]
+
+/-- `parse_render` for every spelling of the scheme -/
+theorem parse_render_cased (v6ok : Str → Bool) (k : Caps) (c : Components) (hw : c.WF v6ok) :
+    connectionParams v6ok (renderCased k c) = .ok (expected c) := by
+  have hw' : c.encode.WF v6ok := ⟨hw.host, hw.port⟩
+  rw [renderCased, parse_encoded_cased v6ok k c.encode hw' (encode_ok c), ← parse_render v6ok c hw, render,
+    parse_encoded v6ok c.encode hw' (encode_ok c)]
+
+/-- corollary: the spelling of the scheme never matters -/
+theorem scheme_case_insensitive (v6ok : Str → Bool) (k : Caps) (c : Components) (hw : c.WF v6ok) :
+    connectionParams v6ok (renderCased k c) = connectionParams v6ok (render c) := by
+  rw [parse_render_cased v6ok k c hw, parse_render v6ok c hw]
+
+/-- corollary: `amqps` in any spelling selects TLS and the TLS default port -/
+theorem scheme_selects_tls_cased (v6ok : Str → Bool) (k : Caps) (c : Components) (hw : c.WF v6ok) (hp : c.port = none) :
+    ∃ r, connectionParams v6ok (renderCased k c) = .ok r ∧ r.ssl = c.tls ∧
+      r.port = if c.tls then 5671 else 5672 := by
+  refine ⟨expected c, parse_render_cased v6ok k c hw, rfl, ?_⟩
+  simp [expected, hp]
+
+-- non-vacuity: `AMQPS://h` and `aMqP://h`, evaluated
+example : renderCased ⟨true, true, true, true, true⟩ ⟨true, none, none, some (.name ['h']), none, none, []⟩ =
+    ['A', 'M', 'Q', 'P', 'S', ':', '/', '/', 'h'] := by decide
+example : (connectionParams (fun _ => true) ['A', 'M', 'Q', 'P', 'S', ':', '/', '/', 'h']).toOption.map (·.ssl) = some true := by
+  decide
+example : (connectionParams (fun _ => true) ['a', 'M', 'q', 'P', ':', '/', '/', 'h']).toOption.map (fun r => (r.ssl, r.port)) =
+    some (false, 5672) := by decide
 
 /-- corollary: a non-empty username, password and virtual host reach the parameters unchanged,
     whatever characters they contain -/
